@@ -360,7 +360,14 @@ def set_at(v, path, new):
 
 
 def mutate(kind: str, spec, r):
-    """(mutated spec, tag)"""
+    """(mutated spec, tag); a second mutation may meet shapes the first one destroyed"""
+    try:
+        return _mutate(kind, spec, r)
+    except (AttributeError, KeyError, TypeError, IndexError, ValueError):
+        return copy.deepcopy(spec), "none"
+
+
+def _mutate(kind: str, spec, r):
     s = copy.deepcopy(spec)
     op = r.choice(["none", "type", "type", "type", "delete", "delete", "oversize", "enum", "oneof", "extra",
                    "junk-root", "two"])
@@ -660,6 +667,8 @@ def run(tier: str) -> int:
         "definitions do not reference themselves through the cache (a cycle is the registry's SubscriptionCycle, C17)",
     ]
     ck.prove(extractors=["CelTables"])
+    if tier == "thorough" and ck.build_ok:
+        ck.leanchecker()
     drv = LeanDriver("C20")
     r = rng("c20")
     quick = tier == "quick"
